@@ -383,9 +383,9 @@ def store_case(cfg):
     if obs['check_rc'] == 0:        # otherwise it would (rightly, from its point of view) wait for ever
         import subprocess
         try:
-            obs['sleep_until_rc'] = jug_cli(['sleep-until'] + common + [cfg['jugfile']], cwd, timeout=30).returncode
+            obs['sleep_until_rc'] = jug_cli(['sleep-until'] + common + [cfg['jugfile']], cwd, timeout=120).returncode
         except subprocess.TimeoutExpired:
-            obs['sleep_until_rc'] = 'no return within 30 s'
+            obs['sleep_until_rc'] = 'no return within 120 s'
     st = cli('status')
     obs['status_out'] = st.stdout
     cnt = cli('count')
